@@ -50,6 +50,7 @@ package storage
 //@   assumed
 //@   modifies ghost.commits ghost.last_batch ghost.last_err ghost.batch_open ghost.floor ghost.floor_set
 //@   ensures [count] commits == old(commits)+1 && last_batch == self && last_err == err && !batch_open
+//@   ensures [conflicts-are-objects] typeis(err, "*storage.Conflict") ==> asptr(err, "*storage.Conflict") != nil
 //@   ensures [floor-untouched] !(old(bw_n)[self] >= 1 && is_compact_key(old(bw_key)[self][0])) ==> floor == old(floor) && floor_set == old(floor_set)
 //@   ensures [floor-failed] err != nil && !err_is(err, ErrUncertainResult) ==> floor == old(floor) && floor_set == old(floor_set)
 //@   ensures [floor-put] err == nil && old(bw_n)[self] >= 1 && is_compact_key(old(bw_key)[self][0]) && old(bw_kind)[self][0] == 3 ==> floor_set && floor == be64_of(old(bw_val)[self][0])
